@@ -486,7 +486,7 @@ func init() {
 	})
 
 	register(&Rule{
-		ID: "rules.immutable", Props: []string{"C13", "C14"}, Floor: 6,
+		ID: "rules.immutable", Props: []string{"C13", "C14", "C18"}, Floor: 6,
 		Doc: "no function reachable from a rule-load entry point stores into a field of a rule object handed in by the caller (the managers cache the caller's rules and compare later loads with reflect.DeepEqual; a mutated rule makes an identical reload report 'changed' and defeats controller reuse). Stores into fresh copies / composite literals are not counted",
 		Run: func(c *Ctx) {
 			for _, m := range ruleModules {
@@ -530,7 +530,7 @@ func init() {
 	})
 
 	register(&Rule{
-		ID: "rules.scope", Props: []string{"C13"}, Floor: 20,
+		ID: "rules.scope", Props: []string{"C13", "C15"}, Floor: 20,
 		Doc: "the per-resource load path stores into / deletes from the enforced, reported and cached maps only under the key of its own resource parameter; the whole-set path replaces those maps by freshly built ones; whenever an enforced map is written its reported twin and the cached input (currentRules) are written in the same function with the same kind of update",
 		Run: func(c *Ctx) {
 			la := &lockAnalysis{P: c.P}
